@@ -14,14 +14,23 @@ func hxNewSMTPClient(s *hxSrv) *Client {
 // hxAuthCapture is a server-side AUTH handler that records every line of the
 // exchange and answers from a script of (code, text) pairs.
 type hxAuthScript struct {
-	lines   [][]byte
-	replies []string // full reply lines without CRLF, consumed in order
+	lines     [][]byte
+	replies   []string // full reply lines without CRLF, consumed in order
+	dropAfter int      // >0: drop the connection instead of sending reply number dropAfter
+	scramFix  bool     // rewrite an "r=PLACEHOLDER" server-first so that it extends the client nonce
+	sent      int
 }
 
 func (a *hxAuthScript) handle(s *hxSrv, line string) {
 	a.lines = append(a.lines, []byte(line))
 	c := s.cmds[len(s.cmds)-1]
 	c.verb = "AUTH"
+	a.sent++
+	if a.dropAfter > 0 && a.sent >= a.dropAfter {
+		s.inAuth = false
+		s.dropped = true
+		return
+	}
 	if len(a.replies) == 0 {
 		s.inAuth = false
 		s.out = append(s.out, "535 5.7.8 no more script\r\n"...)
@@ -29,6 +38,17 @@ func (a *hxAuthScript) handle(s *hxSrv, line string) {
 	}
 	r := a.replies[0]
 	a.replies = a.replies[1:]
+	if a.scramFix && len(a.lines) >= 2 && r == "334 "+string(hxB64Enc([]byte("r=PLACEHOLDER"))) {
+		// client-first is the previous line: n,,n=user,r=<nonce>
+		if dec, ok := hxB64DecStd(a.lines[len(a.lines)-1]); ok {
+			k := len(dec) - 1
+			for k > 0 && !(dec[k-1] == 'r' && dec[k] == '=') {
+				k--
+			}
+			sf := append(append([]byte("r="), dec[k+1:]...), "Sx,s=WqU=,i=4096"...)
+			r = "334 " + string(hxB64Enc(sf))
+		}
+	}
 	s.inAuth = len(r) >= 3 && r[:3] == "334"
 	s.out = append(s.out, r...)
 	s.out = append(s.out, '\r', '\n')
